@@ -86,6 +86,12 @@ typedef struct { int t; int heapid; int give[64]; int ngive; int own_allocs; siz
 static role_t roles[VF_MAXT];
 static int snapshots_on = 0;
 static int exit_aligned = 0;
+static int page_aligned = 0;     /* program page-aligned: two thirds of the blocks of the contended page are over-aligned (interior pointers) */
+static int page_alloc(int hi, size_t n) {
+  static const size_t als[] = {32, 64, 64, 128, 256};
+  if (page_aligned && vf_randn(3) != 0) return op_alloc_ex(hi >= 0 ? A_heap_malloc_aligned : A_malloc_aligned, n, als[vf_randn(5)], 0, hi >= 0 ? hi : 0, 0);
+  return op_alloc_ex(hi >= 0 ? A_heap_malloc : A_malloc, n, 0, 0, hi >= 0 ? hi : 0, 0);
+}
 static size_t blk_lo = 8000, blk_hi = 8192;
 
 static void visit_expect_clean(int hidx) {
@@ -113,7 +119,7 @@ static void* remote_main(void* arg) {
     if (s >= 0 && slots[s].p) op_free_slot(s, FR_free);
     vf_point();
     if (r->own_allocs > 0 && nown < 8 && (vf_randn(2) == 0)) {
-      int ns_ = op_alloc_ex(A_malloc, r->own_lo + (size_t)vf_randn(r->own_hi - r->own_lo + 1), 0, 0, 0, 0); if (ns_ >= 0) { own[nown++] = ns_; }r->own_allocs--;
+      int ns_ = page_alloc(-1, r->own_lo + (size_t)vf_randn(r->own_hi - r->own_lo + 1)); if (ns_ >= 0) { own[nown++] = ns_; }r->own_allocs--;
     }
     if (nown > 0 && vf_randn(2) == 0) { int s2 = own[--nown]; if (slots[s2].p) op_free_slot(s2, FR_free); }
   }
@@ -131,7 +137,8 @@ static void prog_page(int nremote, int owner_ops, int variant /* 0 plain, 1 heap
   /* fill one page (and a bit) of the owner heap */
   int nblk = 7 + (int)vf_randn(3);
   int mine[64], nm = 0;
-  for (int i = 0; i < nblk; i++) { int ns_ = op_alloc_ex(A_heap_malloc, blk_lo + (size_t)vf_randn(blk_hi - blk_lo + 1), 0, 0, hi, 0); if (ns_ >= 0) { mine[nm++] = ns_; } }
+  if (page_aligned) nblk += 6;
+  for (int i = 0; i < nblk; i++) { int ns_ = page_alloc(hi, blk_lo + (size_t)vf_randn(blk_hi - blk_lo + 1)); if (ns_ >= 0) { mine[nm++] = ns_; } }
   /* hand blocks to the remotes */
   for (int k = 0; k < nremote; k++) {
     role_t* r = &roles[k + 1]; memset(r, 0, sizeof(*r));
@@ -148,7 +155,7 @@ static void prog_page(int nremote, int owner_ops, int variant /* 0 plain, 1 heap
     vf_point();
     int c = (int)vf_randn(10);
     if (variant == 1 && !deleted && hi > 0 && i == owner_ops / 2) { heap_delete_op(hi); deleted = 1; hi = 0; continue; }
-    if (c < 4) { int ns_ = op_alloc_ex(A_heap_malloc, blk_lo + (size_t)vf_randn(blk_hi - blk_lo + 1), 0, 0, hi, 0); if (ns_ >= 0 && nm < 64) { mine[nm++] = ns_; } }
+    if (c < 4) { int ns_ = page_alloc(hi, blk_lo + (size_t)vf_randn(blk_hi - blk_lo + 1)); if (ns_ >= 0 && nm < 64) { mine[nm++] = ns_; } }
     else if (c < 7 && nm > 0) { int j = (int)vf_randn((uint64_t)nm); int s = mine[j]; mine[j] = mine[--nm]; if (slots[s].p) op_free_slot(s, FR_free); }
     else if (c < 9 || variant == 2) {
       ret_t r; memset(&r, 0, sizeof(r)); int force = (int)vf_randn(2);
@@ -478,6 +485,7 @@ static int run_one(const char* out, const char* prog, uint64_t seed, int argc, c
   vf_logf("\",\"strategy\":%d}", vf_strategy); vf_log_line_end();
   int nremote = 2 + (int)vf_randn(2);
   if (!strcmp(prog, "page")) prog_page(nremote, 10 + (int)vf_randn(10), 0, 1);
+  else if (!strcmp(prog, "page-aligned")) { page_aligned = 1; if (blk_lo == 8000) { blk_lo = 24; blk_hi = 200; } prog_page(nremote, 14 + (int)vf_randn(10), 0, (int)vf_randn(2)); }
   else if (!strcmp(prog, "page-main")) prog_page(nremote, 10 + (int)vf_randn(10), 0, 0);
   else if (!strcmp(prog, "page-delete")) prog_page(nremote, 10 + (int)vf_randn(8), 1, 1);
   else if (!strcmp(prog, "page-collect")) prog_page(nremote, 12, 2, 1);
